@@ -604,3 +604,39 @@ def check_C07(run, replay):
     res = tlc("MC_Par", cfg="MC_Par_External_TRUE", timeout=3000)
     run.add_tlc(res)
     par_check(run, ["Sampled", "External"], 24 if run.tier == "quick" else 200)
+
+
+# ------------------------------------------------------------------------------------------ C12
+LEVELS["C12"] = "model_checking"
+
+
+def check_C12(run, replay):
+    run.rule = ("cases = (seeded perfect-recall game with degenerate nodes and shared chance infosets, integer profile, one "
+                "transformation of Transform.tla: chance weights of up to 3 nodes x c, single-outcome chance node / "
+                "single-action decision node inserted above up to 3 nodes, all degenerate nodes removed, injective renaming "
+                "of infosets / actions / chance infosets that reverses the action order, payoffs x c, payoffs + c, players "
+                "exchanged with payoffs negated; a parameter tuple; budget T<=2); TLC builds the alternative presentation, "
+                "evaluates both exactly and runs Cfr.tla on both, and checks EvalRelated / SolveRelated on the exact values; "
+                "the harness feeds both presentations to from_root / get_info / solve(Full) and compares with the exact "
+                "values and with each other under the stated relation for budgets {1,3,10,100(,2,1000)} x presets (integer "
+                "payoffs and 1e-12 where both sides perform the same operations, generic payoffs and 1e-9 for shift and "
+                "scale by 3, 7); distinct by canonical JSON; every case is non-trivial")
+    run.assumptions = ["finite non-zero softmax weights are excluded for payoff scaling (strategies cannot be invariant there)",
+                       "leaf order is preserved by every transformation (used to perturb payoffs consistently)"]
+    if replay:
+        case = replay_case(replay)["case"]
+        cases, rows = oracle_cases(run, "MC_Transform", "xform", "xform", 0, "xform", replay=case)
+    else:
+        n = 400 if run.tier == "quick" else 6000
+        extra = ["--thorough", "1"] if run.tier == "thorough" else None
+        cases, rows = oracle_cases(run, "MC_Transform", "xform", "xform", n, "xform", replay_extra=extra, timeout=6000)
+    kinds = {}
+    exact = 0
+    for r in rows:
+        kinds[r.get("kind", "?")] = kinds.get(r.get("kind", "?"), 0) + 1
+        exact += 1 if r.get("exact") else 0
+        run.count("solver_comparisons", r.get("runs", 0))
+    run.notes["cases_per_transformation"] = kinds
+    run.notes["cases_with_exact_solver_trajectory"] = exact
+    run.notes["classes"] = class_counts(rows)
+    absorb(run, rows, cases, mismatch_sig("xform"))
